@@ -22,8 +22,8 @@ MANIFEST = {
             "tied to Parser.py by evaluating it on the mutation stream (every byte truncation of small documents, every single end-tag fault, stray "
             "insertions at every boundary) next to the implementation, and every mutant an independent reference reader finds improperly nested must raise.",
     "note": "Trusted: Coq kernel + vm_compute; Model/Sgml.v (hand transcription incl. the probed behaviour of the C-accelerated xml.etree TreeBuilder), "
-            "validated by correspondence only. Proved for the REPAIRED source (fixes/C08-1): on the unrepaired tree the theorem is false "
-            "(parse_ok_implies_nested_refuted_legacy) and the check reports the accepted mutants.",
+            "validated by correspondence only. parse_ok_implies_nested holds for every configuration with the repaired builder (fix 8ba58b0), whatever the regex; "
+            "the corollaries use both repairs. On the unrepaired builder the theorem is false (parse_ok_implies_nested_refuted_legacy) and the check reports the accepted mutants.",
 }
 
 
